@@ -153,15 +153,29 @@ func initialPopulation() *store.PersistedData {
 	base := time.Date(2030, 1, 1, 0, 0, 0, 0, time.UTC) // the virtual time origin
 	old := base.Add(-2 * time.Hour)
 	oldEnd := old.Add(time.Minute)
-	recent := base.Add(-10 * time.Minute)
+	recent := base.Add(-12 * time.Minute)
 	mk := func(idx int, p string, created time.Time, completed, canceled bool, start, end *time.Time) store.PersistedJob {
 		return store.PersistedJob{ID: jobUUID(idx), Pipeline: p, Created: created, Completed: completed, Canceled: canceled, Start: start, End: end,
 			Tasks: []store.PersistedTask{{Name: "a", Script: []string{"run a"}, Status: "done"}}}
 	}
+	at := func(min int) time.Time { return base.Add(-time.Duration(min) * time.Minute) }
+	fin := func(idx int, p string, min int) store.PersistedJob {
+		c := at(min)
+		e := c.Add(time.Minute)
+		return mk(idx, p, c, true, false, &c, &e)
+	}
+	// finished jobs in an order that is neither oldest-first nor newest-first (a store written by an
+	// earlier version, or after removals, has no particular order)
 	return &store.PersistedData{Jobs: []store.PersistedJob{
+		fin(904, "p", 50),
+		fin(905, "p", 10),
 		mk(901, "p", old, true, false, &old, &oldEnd),
+		fin(906, "p", 40),
 		mk(902, "p", recent, false, false, &recent, nil), // was running when the earlier process died
+		fin(907, "p", 20),
 		mk(903, "q", old, true, false, &old, &oldEnd),
+		fin(908, "q", 30),
+		fin(909, "q", 5),
 	}}
 }
 
@@ -181,8 +195,9 @@ func c12Configs(tier string) []*X2Config {
 	for _, count := range []int{0, 1, 2} {
 		for _, period := range []time.Duration{0, retP} {
 			for _, initial := range []bool{false, true} {
-				if initial && tier != "thorough" && !(count == 1 && period == retP) && !(count == 0 && period == 0) {
-					continue
+				d := depth
+				if initial {
+					d = depth - 1 // the population is already there
 				}
 				p := PipeCfg{Conc: 2, QL: -1, Graph: graphOne, RetCount: count, RetPeriod: period}
 				q := PipeCfg{Conc: 1, QL: -1, Graph: graphOne, RetCount: count, RetPeriod: period}
@@ -192,7 +207,7 @@ func c12Configs(tier string) []*X2Config {
 					Name:         fmt.Sprintf("C12/count=%d period=%v initial=%v", count, period, initial),
 					DefsOverride: []*definitionPipelinesDef{full, onlyP},
 					Pipes:        []string{"p", "q"},
-					Depth:        depth, FailOK: true, Cancel: true, Reload: true, Save: true, Symmetry: false,
+					Depth:        d, FailOK: true, Cancel: true, Reload: true, Save: true, Symmetry: false,
 					AdvSteps: []time.Duration{retP/2 + time.Minute},
 					Props:    props("C12"),
 					LogDir:   true,
